@@ -154,12 +154,13 @@ CHECKS["C10"] = {
 
 CHECKS["C13"] = {
     "level": "fault_enumeration",
-    "jobs": [J("runners", "c13", "TestRunners", 2500, 160000, 8)],
+    "jobs": [J("runners", "c13", "TestRunners", 2500, 160000, 8), J("globalsettings", "c13", "TestGlobalSettingsRunner", 400, 10000, 2, env={"VERIF_GLOBAL_SETTINGS": "1"})],
     "assumptions": ["the failing runner is chosen per case from all positions (each choice of failing runner, not only the first or last)"],
 }
 CHECKS["C14"] = {
     "level": "exploration",
-    "jobs": [J("close", "c14", "TestClose", 2500, 200000, 8), J("slowcloser", "c14", "TestSlowCloser", None, None)],
+    "jobs": [J("close", "c14", "TestClose", 2500, 200000, 8), J("slowcloser", "c14", "TestSlowCloser", None, None),
+             J("serving", "c14", "TestCloseWhileRunnerServes", 300, 10000, 2)],
     "assumptions": [
         "the harness owns the finishing order of the Close calls through per-closer gates; gates are opened independently of whether the closer has been entered, so a sequential implementation is not rejected",
         "the only wall-clock bound (10 s) applies after every gate is open, i.e. when all work is provably finishable",
@@ -192,6 +193,7 @@ CHECKS["C11"] = {
         J("static", "c11", "TestStaticUnexportedEmbedding", None, None),
         J("diamond", "c11", "TestStaticDiamondEmbedding", None, None),
         J("shadowlazy", "c11", "TestStaticShadowAndLazy", None, None),
+        J("embeddedprefixed", "c11", "TestStaticEmbeddedPrefixed", None, None),
     ],
     "assumptions": [
         "run-time built structs (reflect.StructOf) can only embed under an exported field name; embedded types with unexported names are covered by static fixtures",
@@ -202,7 +204,8 @@ CHECKS["C11"] = {
 CHECKS["C15"] = {
     "level": "exploration",
     "jobs": [J("merge", "c15", "TestMerge", 2500, 60000, 8), J("reinitialize", "c15", "TestReinitialize", 800, 20000, 4),
-             J("sharedlist", "c15", "TestSharedLoaderList", 300, 6000, 2)],
+             J("sharedlist", "c15", "TestSharedLoaderList", 300, 6000, 2),
+             J("orderedloaders", "c15", "TestOrderedLoaders", 1500, 40000, 2)],
     "assumptions": [
         "documents are shape-consistent (a key is a map in every source or a leaf in every source): what Viper does with map-vs-scalar conflicts is third-party behaviour outside the property",
         "keys are lower-case (Viper lower-cases keys); argument sources carry ints and plain strings only",
@@ -252,7 +255,8 @@ CHECKS["C18"] = {
         J("validatevar", "c18", "TestValidateVar", 3000, 80000, 8),
         J("validatestruct", "c18", "TestValidateStruct", 1000, 20000, 4),
         J("validatemulti", "c18", "TestValidateMulti", 1500, 30000, 4),
-        J("validateptr", "c18", "TestValidateUnboundPointer", 1000, 20000, 2),
+J("retryhistory", "c18", "TestRetryHistory", 600, 15000, 2),
+                J("validateptr", "c18", "TestValidateUnboundPointer", 1000, 20000, 2),
         J("fuzz-expressions", "c18", "FuzzExpressions", None, None, tiers=["thorough"], fuzz={"target": "FuzzExpressions", "time": {"quick": "10s", "thorough": "120s"}}, timeout={"thorough": 900}),
     ],
     "assumptions": [
@@ -268,6 +272,7 @@ CHECKS["C20"] = {
         J("races", "c20", "TestRaces", 400, 24000, 8, race=True),
         J("races-reallogger", "c20", "TestRaces", 150, 4000, 4, race=True, env={"VERIF_REAL_LOGGER": "1"}),
         J("reallogger-close-errors", "c20", "TestRealLoggerCloseErrors", 10, 50, 16, shards_q=8, race=True, env={"VERIF_REAL_LOGGER": "1"}),  # one chance per process (lazily initialised logger state): several fresh processes
+        J("close-join", "c20", "TestCloseJoinsItsGoroutines", 300, 10000, 4, race=True, env={"VERIF_REC_LOGGER": "1"}),
         J("losfn-owned", "c20", "TestLoadOrStoreFnOwnedSchedule", 1500, 150000, 4, race=True),
         J("map-free", "c20", "TestMapFreeSchedule", 800, 100000, 4, race=True),
         J("sets-free", "c20", "TestSetsFreeSchedule", 600, 50000, 2, race=True),
